@@ -422,7 +422,7 @@ func (e *Engine) expire(interval time.Duration, reporter func(error)) {
 
 	for {
 		// await next interval
-		verifAwait("expire.tick", e, func() bool { return !e.tomb.Alive() || verifTickPending(e) })
+		verifAwait("expire.tick", e, func() bool { return verifReady("expire.tick", !e.tomb.Alive(), verifTickPending(e)) })
 		select {
 		case <-e.tomb.Dying():
 			return
